@@ -69,7 +69,10 @@ def main():
             inner = [fr for fr in tb if not fr.filename.startswith(stdlib) and not fr.filename.startswith("<")]
             # (frames of the standard library - enum lookups, struct, codecs - are skipped: the innermost frame that
             # is not stdlib decides whose exception it is)
-            if inner and inner[-1].filename.startswith(env.SRC):
+            from .workload import LoaderContractBroken
+            if isinstance(e, LoaderContractBroken):
+                res.violation(f"{mod.PROPERTY}:load-returned-nothing", str(e), {"shard": spec})
+            elif inner and inner[-1].filename.startswith(env.SRC):
                 res.violation(f"{mod.PROPERTY}:unexpected-exception:{exc_key(e)}",
                               f"workload operation raised {e!r} inside rv: " + "".join(traceback.format_tb(e.__traceback__)[-3:])[-900:],
                               {"shard": spec})
